@@ -73,7 +73,11 @@ Record Uinv (s : ustate T B) : Prop := {
   ui_le : next (u_base T B s) <= length full;
   ui_live : u_done T B s = false ->
             u_cnt T B s = next (u_base T B s) /\ u_src T B s = skipn (next (u_base T B s)) texts;
-  ui_done : u_done T B s = true -> next (u_base T B s) = length full }.
+  ui_done : u_done T B s = true -> next (u_base T B s) = length full;
+  ui_pos : u_done T B s = false -> u_pos T B s = next (u_base T B s);
+  (* iter_err as the first scan writes it: nothing, or the position of the FIRST Err text *)
+  ui_err : u_err T B s = None \/
+           (u_err T B s = Some (length (ok_prefix texts)) /\ nth_error texts (length (ok_prefix texts)) = Some None) }.
 
 (** labels other than Pull do not look at the part of [xs] beyond what was pulled *)
 Lemma step_with_xs (b : state A B) (l2 : list A) lab :
@@ -136,7 +140,7 @@ Qed.
 Lemma sim_step s lab s' : Inv A B f (absu s) -> Uinv s -> ustep s lab = Some s' ->
   step (absu s) lab = Some (absu s') /\ Uinv s'.
 Proof.
-  intros I U H. destruct U as [Un Ux Ule Ulive Udone].
+  intros I U H. destruct U as [Un Ux Ule Ulive Udone Upos Uerr].
   destruct (match lab with Pull _ => true | _ => false end) eqn:Ep.
   - destruct lab as [t| | | | | | |]; try discriminate. clear Ep.
     unfold Inference_Unfused.ustep in H. cbn [andb] in H.
@@ -150,7 +154,7 @@ Proof.
       rewrite Un in Es. rewrite Nat.ltb_irrefl in Es. injection Es as <-.
       replace (next (u_base T B s) <? length full) with false by (symmetry; apply Nat.ltb_ge; lia). unfold set_thr. cbn [xs next turn thr chan out dropped log pad ndrop].
       split; [reflexivity|].
-      constructor; cbn [u_base u_done xs next]; auto; discriminate.
+      constructor; cbn [u_base u_done u_cnt u_src u_pos u_err xs next]; auto; try discriminate.
     + destruct (Ulive eq_refl) as [Uc Us].
       destruct (u_src T B s) as [|[x|] r] eqn:Esrc.
       * (* the text iterator is exhausted *)
@@ -165,7 +169,7 @@ Proof.
         rewrite Un in Es. rewrite Nat.ltb_irrefl in Es. injection Es as <-.
         replace (next (u_base T B s) <? length full) with false by (symmetry; apply Nat.ltb_ge; lia). unfold set_thr. cbn [xs next turn thr chan out dropped log pad ndrop].
         split; [reflexivity|].
-        constructor; cbn [u_base u_done xs next]; auto; discriminate.
+        constructor; cbn [u_base u_done u_cnt u_src u_pos u_err xs next]; auto; try discriminate.
       * (* an Ok text: pulled with the number the loader's enumerate gives it *)
         assert (Hnth : nth_error texts (next (u_base T B s)) = Some (Some x)).
         { symmetry in Us. exact (proj1 (skipn_head _ _ _ _ Us)). }
@@ -183,7 +187,7 @@ Proof.
         injection Es as <-. cbn [xs next turn thr chan out dropped log pad ndrop].
         replace (next (u_base T B s) <? length full) with true by (symmetry; apply Nat.ltb_lt; rewrite full_length; lia).
         split; [reflexivity|].
-        constructor; cbn [u_base u_done u_cnt u_src xs next].
+        constructor; cbn [u_base u_done u_cnt u_src u_pos u_err xs next].
         -- rewrite app_length, <- Un. cbn [length]. lia.
         -- rewrite Ux at 1. rewrite Uc.
            rewrite (firstn_S_nth_error full (next (u_base T B s)) _ Hfull). reflexivity.
@@ -191,6 +195,8 @@ Proof.
         -- intros _. split; [lia|].
            symmetry in Us. symmetry. exact (proj2 (skipn_head _ _ _ _ Us)).
         -- intros Hd. discriminate.
+        -- intros _. rewrite (Upos eq_refl). reflexivity.
+        -- exact Uerr.
       * (* an Err text: recorded, this worker exits, the upstream is over *)
         assert (Hend : next (u_base T B s) = length full).
         { rewrite full_length in *. apply ok_prefix_stop; [exact Ule|]. right.
@@ -202,7 +208,9 @@ Proof.
         rewrite Un in Es. rewrite Nat.ltb_irrefl in Es. injection Es as <-.
         replace (next (u_base T B s) <? length full) with false by (symmetry; apply Nat.ltb_ge; lia). unfold set_thr. cbn [xs next turn thr chan out dropped log pad ndrop].
         split; [reflexivity|].
-        constructor; cbn [u_base u_done xs next]; auto; discriminate.
+        constructor; cbn [u_base u_done u_cnt u_src u_pos u_err xs next]; auto; try discriminate.
+        right. rewrite (Upos eq_refl), Hend, full_length. split; [reflexivity|].
+        rewrite <- full_length, <- Hend. symmetry in Us. exact (proj1 (skipn_head _ _ _ _ Us)).
   - assert (Hp : forall t, lab <> Pull t) by (intros t ->; discriminate).
     assert (H' : option_map (fun b' => umk T B b' (u_src T B s) (u_cnt T B s) (u_pos T B s) (u_done T B s) (u_err T B s))
                             (step (u_base T B s) lab) = Some s').
@@ -212,7 +220,7 @@ Proof.
     rewrite (step_with_xs (u_base T B s) full lab Hp).
     + rewrite Es. cbn [option_map]. split; [reflexivity|].
       destruct (next_step_other _ _ _ Hp Es) as [En Exs].
-      constructor; cbn [u_base u_done u_cnt u_src]; rewrite ?En, ?Exs; auto.
+      constructor; cbn [u_base u_done u_cnt u_src u_pos u_err]; rewrite ?En, ?Exs; auto.
     + intros t i -> Ht. rewrite Ux. apply nth_firstn_lt.
       assert (Hr : turn (absu s) <= i < next (absu s)).
       { apply (holder_range A B f (absu s) t (Sending i) i I); [exact Ht|reflexivity]. }
@@ -227,19 +235,32 @@ Proof. reflexivity. Qed.
 
 (** every execution of the repaired loader's pipe over its real upstream is an execution of Pipe_Model's
     pipe over the list of the enumerated texts before the first Err text, with the same output *)
+Lemma sim_run tr : forall s0 s, Inv A B f (absu s0) -> Uinv s0 -> urun s0 tr = Some s ->
+  run (absu s0) tr = Some (absu s) /\ Uinv s.
+Proof.
+  induction tr as [|lab tr IH]; intros s0 s I U H; cbn [Inference_Unfused.urun Pipe_Model.run] in *.
+  - injection H as <-. split; [reflexivity|exact U].
+  - destruct (ustep s0 lab) as [s1|] eqn:E; [|discriminate].
+    destruct (sim_step s0 lab s1 I U E) as [Hs U1]. rewrite Hs.
+    apply (IH s1 s); [|exact U1|exact H]. exact (inv_step A B f d _ _ _ I Hs).
+Qed.
+
 Lemma fused_is_pipe_l W tr : forall s, urun (uinit T B texts W) tr = Some s ->
   run (init A B full W) tr = Some (absu s) /\ out (absu s) = out (u_base T B s).
 Proof.
-  assert (G : forall tr s0 s, Inv A B f (absu s0) -> Uinv s0 -> urun s0 tr = Some s ->
-              run (absu s0) tr = Some (absu s)).
-  { induction tr0 as [|lab tr0 IH]; intros s0 s I U H; cbn [Inference_Unfused.urun Pipe_Model.run] in *.
-    - injection H as <-. reflexivity.
-    - destruct (ustep s0 lab) as [s1|] eqn:E; [|discriminate].
-      destruct (sim_step s0 lab s1 I U E) as [Hs U1]. rewrite Hs.
-      apply (IH s1 s); [|exact U1|exact H]. exact (inv_step A B f d _ _ _ I Hs). }
   intros s H. split; [|reflexivity].
-  rewrite <- absu_init. apply G; [|apply uinv_init|exact H].
+  rewrite <- absu_init. apply (sim_run tr _ s); [|apply uinv_init|exact H].
   rewrite absu_init. apply inv_init.
+Qed.
+
+(** after the repair the first scan can record only ONE error: the first Err text (before it, every Err
+    text a worker ran into overwrote iter_err) *)
+Lemma fused_err_is_first_l W tr s : urun (uinit T B texts W) tr = Some s ->
+  u_err T B s = None \/
+  (u_err T B s = Some (length (ok_prefix texts)) /\ nth_error texts (length (ok_prefix texts)) = Some None).
+Proof.
+  intros H. assert (I0 : Inv A B f (absu (uinit T B texts W))) by (rewrite absu_init; apply inv_init).
+  exact (ui_err _ (proj2 (sim_run tr _ s I0 (uinv_init W) H))).
 Qed.
 
 End Fused.
